@@ -17,9 +17,9 @@ type Value interface{}
 // sharing the array term is a snapshot (copy) — strings are immutable.
 type StrV struct {
 	Arr, Off, Len *Term
-	Lit   *string // literal content, when the string is a compile-time constant
-	Cat   []StrV  // operands, when the string was built by concatenation
-	Taint uint8   // taint label bits: the value carries secret material (C18)
+	Lit           *string // literal content, when the string is a compile-time constant
+	Cat           []StrV  // operands, when the string was built by concatenation
+	Taint         uint8   // taint label bits: the value carries secret material (C18)
 }
 
 // SliceV is a slice header over a backing object.
@@ -60,16 +60,16 @@ type IfaceV struct {
 }
 
 type SymIface struct {
-	ID    int
-	Name  string
-	T     types.Type // static interface type
-	Nil   *Term      // Bool
-	Tag   *Term      // Int: type id of the dynamic type (meaningful when !Nil)
-	Ref   *Term      // SRef identity
-	Cases map[string]Value
-	CaseT map[string]types.Type
+	ID     int
+	Name   string
+	T      types.Type // static interface type
+	Nil    *Term      // Bool
+	Tag    *Term      // Int: type id of the dynamic type (meaningful when !Nil)
+	Ref    *Term      // SRef identity
+	Cases  map[string]Value
+	CaseT  map[string]types.Type
 	Closed bool // the dynamic type is nil or one of CaseT (merge of concrete alternatives)
-	Taint uint8
+	Taint  uint8
 }
 
 // FuncV: Fn != nil → known function with bound free variables. Otherwise symbolic.
@@ -117,13 +117,13 @@ type OpaqueV struct {
 // ChanV etc. are all OpaqueV.
 
 type Obj struct {
-	ID    int
-	Name  string
-	T     types.Type // content type (struct / array elem container / scalar)
-	IsArr bool
-	Fresh bool // allocated during this function (not visible to caller before)
+	ID       int
+	Name     string
+	T        types.Type // content type (struct / array elem container / scalar)
+	IsArr    bool
+	Fresh    bool // allocated during this function (not visible to caller before)
 	MayAlias *Obj // result of append on a caller-visible array: may share it (growth in place)
-	Sym   bool // identity unknown: placeholder created by a havoc (contract result, modifies, loop target)
+	Sym      bool // identity unknown: placeholder created by a havoc (contract result, modifies, loop target)
 }
 
 func (o *Obj) String() string { return fmt.Sprintf("%s#%d", o.Name, o.ID) }
@@ -164,11 +164,11 @@ type State struct {
 
 func (s *State) clone() *State {
 	n := &State{
-		heap:   make(map[*Obj]Value, len(s.heap)),
-		pc:     append([]*Term(nil), s.pc...),
-		ghost:  make(map[string]Value, len(s.ghost)),
-		inLoop: make(map[int]bool, len(s.inLoop)),
-		vars:   make(map[string]Value, len(s.vars)),
+		heap:     make(map[*Obj]Value, len(s.heap)),
+		pc:       append([]*Term(nil), s.pc...),
+		ghost:    make(map[string]Value, len(s.ghost)),
+		inLoop:   make(map[int]bool, len(s.inLoop)),
+		vars:     make(map[string]Value, len(s.vars)),
 		taint:    make(map[*Obj]uint8, len(s.taint)),
 		taintKey: make(map[*Obj]map[string]bool, len(s.taintKey)),
 	}
